@@ -565,7 +565,9 @@ fn process_request_obj(request: &Request, dbs: &Arc<Databases>, client: &mut Cli
             log::debug!("ack send_message_to_secoundary {} {}", opp_id, request_str);
             // An envelope carries one command: envelopes nested in envelopes recurse once per level
             // and a few thousand of them in one line exhaust the stack of the connection thread
-            if request_str.starts_with("rp ") {
+            // (the inner command is trimmed before it is parsed: an envelope behind line breaks is an
+            // envelope too)
+            if request_str.trim_start().starts_with("rp ") {
                 return Response::Error {
                     msg: String::from("Invalid replication request str"),
                 };
